@@ -57,6 +57,7 @@ extern SimSeams g_seams;
 void seams_reset_run();                 // new run: counters, clock, fs; the live set must already be empty
 size_t seams_live_blocks();
 std::string seams_describe_live(size_t max_items);  // for leak reports
+std::string seams_live_histogram();     // " site:blocks:bytes ..." over the live set
 void seams_forget_live();               // after a reported leak: drop the records (memory is lost anyway)
 const char *seams_current_phase();
 void seams_set_phase(const char *p);    // shown in hang/crash reports
